@@ -55,7 +55,7 @@ CHECKS = {
             "DESIGN.md section 4, C10"),
     "C11": ("exploration",
             "stateful property testing (rapid): tree state machine with close operations + close-moment scenarios (before ready, mid-stream, during Refilter, during relist) and mechanisms (Close, context cancel, list error); oracle = closed set equals the subtree, survivors fully functional",
-            "Every node kind (six attach kinds, monitors, root) is closed at quiet and at racing moments; afterwards exactly the subtree of the closed node must be done with its Events() closed, and every other node must keep Done/Events open, converge at the next barrier with an exact mirror and accept further Subscribe/Refilter/traffic. Root closures by Close, context cancellation and five kinds of fatal list results must take everything down and leave no library goroutine.",
+            "Every node kind (six attach kinds, monitors, root) is closed at quiet and at racing moments; afterwards exactly the subtree of the closed node must be done with its Events() closed, and every other node must keep Done/Events open, converge at the next barrier with an exact mirror and accept further Subscribe/Refilter/traffic. Root closures by Close, context cancellation and five kinds of fatal list results must take everything down and leave no library goroutine. A further scenario family fires the trigger while the controller is busy (its own filter held inside the cache while the k-th list or a watch event is applied, the other components having already stopped on the context) and then lets it carry on: the cascade must still reach every descendant.",
             "Joins as tree members are covered by C09's close oracle. Interleavings are perturbed, not enumerated.",
             "DESIGN.md section 4, C11"),
     "C12": ("fault_enumeration",
